@@ -949,7 +949,7 @@ func (x *Exec) builtin(fr *frame, st *State, f *ssa.Builtin, cc *ssa.CallCommon,
 		}
 		s := args[0]
 		rt := cc.Args[0].Type()
-		id := x.freshSliceID()
+		id := x.freshSliceID(st)
 		var add Term
 		if len(args) > 1 {
 			if isString(cc.Args[1].Type()) {
@@ -1045,6 +1045,11 @@ func (x *Exec) applyContract(ct *Contract, f *ssa.Function, sig *types.Signature
 	} else if f != nil {
 		for k, p := range f.Params {
 			names[p.Name()] = x.materialize(args[k], p.Type())
+		}
+		if f.Signature.Recv() != nil && len(args) > 0 {
+			if _, shadow := names["recv"]; !shadow {
+				names["recv"] = names[f.Params[0].Name()]
+			}
 		}
 	} else {
 		for k := 0; k < sig.Params().Len(); k++ {
@@ -1664,7 +1669,7 @@ func (x *Exec) preciseAppend(st *State, cc *ssa.CallCommon, args []Val, reach Te
 	s := args[0]
 	n := Op("bvadd", SBV(64), s.L[1], BVLit(k, 64))
 	inplace := And(Op("bvsle", SBool, n, s.L[2]), Not(Eq(s.L[0], BVLit(0, 64))))
-	fresh := x.freshSliceID()
+	fresh := x.freshSliceID(st)
 	newid := x.c.Define("appid", Ite(inplace, s.L[0], fresh))
 	fcap := x.c.Fresh("cap", SBV(64))
 	x.c.Assume(Op("bvsle", SBool, n, fcap))
